@@ -1,6 +1,7 @@
 /-
   Termination of `search_until_quiet` from a rank (`QRank`, Lemmas/QTermDefs.lean) — no hypothesis about
-  the UNPRUNED reference tree (`Spec.QFinite`), which is infinite on a perpetual check.
+  the PLAIN quiescence tree (`Spec.QplainFinite`), which is infinite on a perpetual check.  (The reference
+  value `Spec.Q` exists under the same rank with the same fuel: Lemmas/QSpec.lean, `Spec.Q_total`.)
 
   A child node is searched with the window `(-β, -α')`, `α' ≥ max α standPat`; it gets past its own
   stand-pat test only if `eval child < -α' ≤ -(eval parent)`, and then `ρ child < ρ parent`.  So the
@@ -23,31 +24,6 @@ section qterm
 variable {P : Type} (G : Game P)
 
 /-! ### quiescence answers -/
-
-/-- `quiesceLoop_some`, carrying the invariant `e ≤ α` (the accumulator only grows): the recursive call
-    only has to answer for the windows `(-β, -a)` with `e ≤ a`. -/
-theorem quiesceLoop_some_ge (rec : P → Int → Int → SearchState → Option Int × SearchState) (p : P)
-    (β e : Int) :
-    ∀ (rest : List Move) (α : Int) (s : SearchState), e ≤ α →
-      (∀ m ∈ rest, ∀ a s', e ≤ a → ∃ r, (rec (G.play p m) (-β) (-a) s').1 = some r) →
-      ∃ r, (quiesceLoop G rec p β rest α s).1 = some r := by
-  intro rest
-  induction rest with
-  | nil => intro α s _ _; exact ⟨α, rfl⟩
-  | cons mv rest ih =>
-    intro α s hα h
-    rw [quiesceLoop_cons]
-    split
-    · exact ⟨α, rfl⟩
-    · obtain ⟨r, hr⟩ := h mv List.mem_cons_self α (polled s) hα
-      rcases hres : rec (G.play p mv) (-β) (-α) (polled s) with ⟨ro, s2⟩
-      rw [hres] at hr
-      simp only at hr
-      subst hr
-      simp only
-      split
-      · exact ⟨β, rfl⟩
-      · exact ih _ _ (by omega) (fun m hm => h m (List.mem_cons_of_mem _ hm))
 
 variable {S : P → Prop} {ρ : P → Nat}
 
